@@ -5,6 +5,7 @@ package gedcom
 // combined with VsAnd/VsOr/VsIte so that an oracle never multiplies paths.
 
 import (
+	"fmt"
 	"time"
 
 	. "github.com/elliotchance/gedcom/v39/internal/vsym"
@@ -75,4 +76,33 @@ func (v VDate) Last() int {
 		return VDayNo(v.Y, v.M, VDaysIn(v.M, v.Y))
 	}
 	return VDayNo(v.Y, 12, 31)
+}
+
+// vSameTree compares two nodes position by position: tag, value, pointer, Go type, children.
+func vSameTree(a, b Node) bool {
+	ok := VsAll(
+		a.Tag().Tag() == b.Tag().Tag(),
+		VsStrEq(a.Value(), b.Value()),
+		VsStrEq(a.Pointer(), b.Pointer()),
+		fmt.Sprintf("%T", a) == fmt.Sprintf("%T", b),
+		len(a.Nodes()) == len(b.Nodes()),
+	)
+	if len(a.Nodes()) != len(b.Nodes()) {
+		return false
+	}
+	for i, c := range a.Nodes() {
+		ok = VsAnd(ok, vSameTree(c, b.Nodes()[i]))
+	}
+	return ok
+}
+
+func vSameDocument(a, b *Document) bool {
+	if len(a.Nodes()) != len(b.Nodes()) {
+		return false
+	}
+	ok := a.HasBOM == b.HasBOM
+	for i, n := range a.Nodes() {
+		ok = VsAnd(ok, vSameTree(n, b.Nodes()[i]))
+	}
+	return ok
 }
